@@ -346,6 +346,13 @@ package server
 //@   assumes s != nil && s.metadata != nil
 //@   call ReportGroupCoordinator requires [the-operation-body-is-present] arg2 != nil
 
+// The expiry call-back of a group member runs on a timer goroutine and can lose the race against a leave: when the
+// removal is refused (the consumer is no longer a member) the retry path must not assume the member is still there -
+// a nil dereference on a timer goroutine takes the process down (C12: "... leaving or expiring ...")
+//@ func (*consumerGroup).consumerExpired$1 serves C12
+//@   assumes c != nil && c.logger != nil && c.members != nil && (forall k string :: (k in c.members) ==> c.members[k] != nil)
+//@   safety
+
 // A replication request is a NATS payload too (C14): whatever replica id it names, the leader must not crash. The leader
 // keeps a replicator for every replica EXCEPT itself (startReplicating), so "is a replica" does not imply "has a
 // replicator".
